@@ -12,6 +12,7 @@ EXPLANATION = (
     "(R-C16-fields) the Publish / PublishProperties built in handle_last_will take each field from the like-meaning field of the registered will and its properties; "
     "(R-C16-key) the keys agree: every link's Incoming and Outgoing buffers are created with Connection::new(..).client_id (tenant prefix included), and the will table is keyed by those client_id fields; "
     "RemoteLink::new has no error exit after LinkBuilder::build registered the connection unless Event::Disconnect is sent first; "
+    "(R-C16-handover) in RemoteLink::start every path from filling the buffer shared with the router (push_back through the LinkTx::buffer guard, Network::readv) to the end of the link passes LinkTx::notify; "
     "(R-C16-registry) in broker::remote nothing that can panic runs while the shared will-decider table is locked (region between each MutexGuard's definition and its drop), and the decider a task registers is removed or waited on on every path to the end of the task; "
     "NOT decided: ordering of PublishWill against Disconnect processing in the router channel; delay timing.")
 ASSUMPTIONS = ["rustc MIR construction is correct"]
@@ -29,6 +30,7 @@ def run(ctx):
     ctx.guarded("R-C16-fields", will_fields, ctx, prog)
     ctx.guarded("R-C16-registry", registry, ctx, prog)
     ctx.guarded("R-C16-fire", registered_then_reported, ctx, prog)
+    ctx.guarded("R-C16-handover", handover, ctx, prog)
 
 
 def will_wakes_subscribers(ctx, prog):
@@ -397,3 +399,30 @@ def registered_then_reported(ctx, prog):
                       "RemoteLink::new returns an error after LinkBuilder::build registered the connection with the router (the CONNACK could not be written) and no Event::Disconnect is sent: "
                       "broker::remote ends the task without a connection id, the router keeps the connection for ever — its slot stays taken (connection limit) and its will is never published",
                       site=nb.loc(sp))
+
+
+def handover(ctx, prog):
+    """Whatever the link decoded and pushed into the buffer it shares with the router is handed over (LinkTx::notify)
+    before the link gives up -- also when a later packet of the same read is malformed. Otherwise a DISCONNECT that
+    was decoded is never seen by the router and the will of a client that "sent DISCONNECT first" is published,
+    depending on how its bytes were chunked."""
+    rule = "R-C16-handover"
+    body = prog.one(r"^link::remote::RemoteLink::<P>::start::\{closure#0\}$")
+    fills = [bb for bb, t in body.calls() if not body.is_cleanup(bb) and re.search(r"Network::<P>::readv$", callee_path(t))]
+    # pushes into the buffer shared with the router (the guard handed out by LinkTx::buffer), not into local queues
+    pushes = [bb for bb, t in body.calls() if not body.is_cleanup(bb) and re.search(r"VecDeque::<T, A>::push_back$", callee_path(t))
+              and any(x.kind == "call" and x.path.endswith("LinkTx::buffer") for x in flatten_src(provenance(body, t["args"][0], through_calls=[r"DerefMut>::deref_mut$"])))]
+    notifies = [bb for bb, t in body.calls() if not body.is_cleanup(bb) and re.search(r"LinkTx::notify$", callee_path(t))]
+    if not fills or not notifies:
+        raise AnchorMissing("RemoteLink::start: Network::readv (%d) / LinkTx::notify (%d) not found" % (len(fills), len(notifies)))
+    rets = return_blocks(body)
+    srcs = fills + pushes
+    if must_pass(body, srcs, rets, via_blocks=set(notifies)):
+        ctx.ok(rule, body.id, "every path from decoding packets into the shared buffer (%d sites) to the end of the link passes LinkTx::notify" % len(srcs),
+               site=body.loc(body.blocks[fills[0]]["t"].get("sp")))
+    else:
+        p = find_path(body, srcs, rets, avoid_blocks=set(notifies))
+        ctx.violation(rule, body.id, "decoded packets not handed over",
+                      "a path from Network::readv (which appends the packets it decoded to the buffer shared with the router) to the end of the link skips LinkTx::notify — the error of a malformed later packet is returned first: "
+                      "the router never processes the packets decoded before it (a DISCONNECT among them does not discard the will), so the outcome depends on how the client's bytes were chunked",
+                      site=body.loc(body.blocks[fills[0]]["t"].get("sp")), path=path_lines(body, p) if p else None)
